@@ -1,5 +1,5 @@
 """replay of a counterexample against the plain (un-instrumented) package of the scratch copy.
-usage: ./check replay <file.json>   -> exit 1 if the violation reproduces, 0 if not"""
+usage: ./check replay <file.json>   -> exit 10 if the violation reproduces, 0 if not"""
 import json, sys, os, subprocess, importlib
 from . import boot, common
 
@@ -18,7 +18,7 @@ def run_in_subprocess(replay_dict):
     finally:
         os.unlink(p)
     out = (r.stdout + r.stderr).strip()
-    if r.returncode == 1:
+    if r.returncode == 10:
         return True, out[-2000:]
     if r.returncode == 0:
         return False, out[-2000:]
@@ -33,7 +33,7 @@ def main(path):
     print(detail)
     if ok:
         print('REPRODUCED property=%s' % d['property'])
-        return 1
+        return 10
     print('not reproduced')
     return 0
 
